@@ -1,4 +1,4 @@
-import QmiModel.Lemmas.C07Snap
+import QmiModel.Lemmas.C07Order
 /-!
 # C07 — published signals reach every subscribed receiver once, in order
 
@@ -77,7 +77,7 @@ theorem delivered_iff_in_snapshot {s : State} (h : Reach s) {sid : Nat} {sn : Sn
   have inv := dlvInv_reach h
   refine ⟨fun c r => filter_length_le_one_of_nodup_map Item.sid sid (inv.got_once c r), ?_, inv.all sid sn hs⟩
   intro c r it hit he
-  obtain ⟨rs0, h1, h2⟩ := inv.got_snap c r it hit
+  obtain ⟨rs0, tk, h1, h2⟩ := inv.got_snap c r it hit
   rw [he, hs] at h1
   simp only [Option.some.injEq] at h1
   subst h1
@@ -118,5 +118,238 @@ def exLocalDelivery : List Act := [
 example : ((run State.init exLocalDelivery).map fun s =>
     (s.snaps.map (fun sn => (sn.c, sn.rs)), ((s.ctx 0).got 7).map (fun it => (it.sid, it.p.tid, it.p.seq)))) =
     some ([(0, [7])], [(0, 1, 0)]) := by decide
+
+
+/-! ## Nothing is delivered after an unsubscribe has taken effect
+
+`Quiet s c k r N` (Lemmas/C07Unsub): no `subscribe(k, r)` call is in progress in context `c`, receiver `r` is neither
+in the table entry of `k` nor waiting in its pending request, and every delivery to `r` for `k` that some thread still
+has on its list belongs to a snapshot with index `< N ≤ |snaps|`. -/
+
+/-- the step in which `unsubscribe(k, r)` takes effect — made while no `subscribe(k, r)` is in progress — establishes
+`Quiet` with `N` = number of snapshots taken so far -/
+theorem unsubscribe_takes_effect {s s' : State} {th : Th} {ch ch2 : Nat} {o : Out} {k : Key} {r : Rcv} {rest : List MOp}
+    (hreach : Reach s)
+    (hp : s.prog th = .removeLocal k r :: rest ∨ s.prog th = .unsubRemote k r :: rest)
+    (htags : ∀ th', th'.ctx = th.ctx → progTag (s.prog th') ≠ .sub k r)
+    (hpend : ∀ pid po, (s.ctx th.ctx).byKey k = some pid → (s.ctx th.ctx).pobj pid = some po → r ∉ po.rcvs)
+    (hs : step s (.micro th ch ch2) = some (s', o)) : Quiet s' th.ctx k r s'.snaps.length :=
+  quiet_of_unsub hreach hp htags hpend hs
+
+/-- `Quiet` is preserved by every action except the begin of a `subscribe(k, r)` call in that context -/
+theorem quiet_preserved {s s' : State} {a : Act} {o : Out} {c : Ctx} {k : Key} {r : Rcv} {N : Nat}
+    (hreach : Reach s) (h : Quiet s c k r N) (hs : step s a = some (s', o))
+    (hno : ∀ t pc ob sg, a = .begin c t (.subscribe pc ob sg r) → (⟨.name pc, ob, sg⟩ : Key) ≠ k) : Quiet s' c k r N :=
+  quiet_step hreach h hs hno
+
+/-- **no delivery after unsubscribe**: once the unsubscribe of `r` from `k` has taken effect (`Quiet … N`), along any
+continuation of the execution in which `subscribe(k, r)` is not called again, every item labelled `k` that reaches
+`r`'s queue comes from a snapshot with index `< N`, i.e. one that `_deliver_local` took *before* the unsubscribe took
+effect.  A publication that begins after that moment takes its snapshots after it (snapshots are only appended, see
+`snaps_append_only`), so it is never delivered to `r` — whatever the interleaving, locally and through the network. -/
+theorem no_delivery_after_unsubscribe {c : Ctx} {k : Key} {r : Rcv} {N : Nat} :
+    ∀ (as : List Act) {s s' : State}, Reach s → Quiet s c k r N → run s as = some s' →
+      (∀ t pc ob sg, .begin c t (.subscribe pc ob sg r) ∈ as → (⟨.name pc, ob, sg⟩ : Key) ≠ k) →
+      Quiet s' c k r N ∧ ∀ it ∈ (s'.ctx c).got r, it.k = k → it ∈ (s.ctx c).got r ∨ it.sid < N := by
+  intro as
+  induction as with
+  | nil =>
+    intro s s' _ hq hr _
+    simp only [run, Option.some.injEq] at hr
+    subst hr
+    exact ⟨hq, fun it hi _ => Or.inl hi⟩
+  | cons a as ih =>
+    intro s s' hreach hq hr hno
+    simp only [run] at hr
+    split at hr
+    · rename_i s1 o heq
+      have hq1 := quiet_step hreach hq heq (fun t pc ob sg e => hno t pc ob sg (e ▸ List.mem_cons_self))
+      obtain ⟨hq', hgot⟩ := ih (Reach.step hreach heq) hq1 hr (fun t pc ob sg hm => hno t pc ob sg (List.mem_cons_of_mem _ hm))
+      refine ⟨hq', fun it hi hk => ?_⟩
+      rcases hgot it hi hk with h1 | h1
+      · rcases got_step hreach heq c r it h1 with h2 | ⟨th, rs, hc, hx, hm⟩
+        · exact Or.inl h2
+        · right
+          rw [hk] at hx
+          exact hq.dlv th it.sid rs it.p hc hx hm
+      · exact Or.inr h1
+    · simp at hr
+
+/-- snapshots are only ever appended: a snapshot taken later has a larger index -/
+theorem snaps_append_only {s s' : State} {a : Act} {o : Out} (hreach : Reach s) (hs : step s a = some (s', o)) :
+    s.snaps.length ≤ s'.snaps.length ∧ ∀ (i : Nat) sn, s.snaps[i]? = some sn → s'.snaps[i]? = some sn := by
+  by_cases ha : ∃ th ch ch2, a = .micro th ch ch2
+  · obtain ⟨th, ch, ch2, rfl⟩ := ha
+    obtain ⟨-, op, rest, hp, hm⟩ := step_micro_inv hs
+    have hrest : noDlv rest := by have := (dlvInv_reach hreach).tail th; rw [hp] at this; exact this
+    by_cases hl : op.isSnapLocal = true
+    · cases op <;> simp only [MOp.isSnapLocal] at hl <;> try contradiction
+      simp only [microStep, Option.some.injEq, Prod.mk.injEq] at hm
+      obtain ⟨rfl, -⟩ := hm
+      exact ⟨by simp, fun i sn h => getElem?_append_of_some h⟩
+    · by_cases hd : op.isDeliver = true
+      · cases op <;> simp only [MOp.isDeliver] at hd <;> try contradiction
+        simp only [microStep] at hm
+        split at hm
+        · simp only [Option.some.injEq, Prod.mk.injEq] at hm
+          obtain ⟨rfl, -⟩ := hm
+          exact ⟨by simp, fun i sn h => by simpa using h⟩
+        · simp at hm
+      · have hd' : op.isDeliver = false := by simpa using hd
+        have hl' : op.isSnapLocal = false := by simpa using hl
+        obtain ⟨h1, -, -⟩ := microStep_other hd' hl' hrest hm
+        rw [h1]; exact ⟨Nat.le_refl _, fun i sn h => h⟩
+  · have ha' : ∀ th ch ch2, a ≠ .micro th ch ch2 := fun th ch ch2 e => ha ⟨th, ch, ch2, e⟩
+    have : s'.snaps = s.snaps := step_nonmicro_snaps ha' hs
+    rw [this]; exact ⟨Nat.le_refl _, fun i sn h => h⟩
+
+
+/-! ### non-vacuity of the unsubscribe theorems: a reachable state in which receiver 7 is subscribed, has received one
+publication, and thread (0,0) is about to execute the effective step of `unsubscribe`; the hypotheses of
+`unsubscribe_takes_effect` hold there, hence `Quiet` is reachable. -/
+
+def exBeforeUnsub : List Act := exLocalDelivery ++ [.micro (.user 0 1) 0 0, .micro (.user 0 1) 0 0, .begin 0 0 (.unsubscribe 0 0 0 7)]
+
+private def exKey : Key := ⟨.name 0, 0, 0⟩
+
+example : ∃ s s' o, Reach s ∧ step s (.micro (.user 0 0) 0 0) = some (s', o) ∧ Quiet s' 0 exKey 7 s'.snaps.length ∧
+    ((s.ctx 0).got 7).length = 1 ∧ (s'.ctx 0).lsubs exKey = [] := by
+  have hrun : (run State.init exBeforeUnsub).isSome = true := by decide
+  obtain ⟨s, hs⟩ := Option.isSome_iff_exists.1 hrun
+  have hreach : Reach s := reach_run Reach.init hs
+  have hstep : (step s (.micro (.user 0 0) 0 0)).isSome = true := by
+    have : ((run State.init exBeforeUnsub).bind fun s => step s (.micro (.user 0 0) 0 0)).isSome = true := by decide
+    rw [hs] at this; simpa using this
+  obtain ⟨⟨s', o⟩, hs'⟩ := Option.isSome_iff_exists.1 hstep
+  have hp0 : s.prog (.user 0 0) = [.removeLocal exKey 7, .ret (.unsub exKey 7)] := by
+    have : (run State.init exBeforeUnsub).map (fun s => s.prog (.user 0 0)) = some [.removeLocal exKey 7, .ret (.unsub exKey 7)] := by decide
+    rw [hs] at this; simpa using this
+  have hp1 : s.prog (.user 0 1) = [] := by
+    have : (run State.init exBeforeUnsub).map (fun s => s.prog (.user 0 1)) = some [] := by decide
+    rw [hs] at this; simpa using this
+  have hother : ∀ th, th ≠ .user 0 0 → th ≠ .user 0 1 → s.prog th = [] := by
+    intro th h0 h1
+    have := prog_run_other exBeforeUnsub th hs (by
+      intro a ha
+      simp only [exBeforeUnsub, exLocalDelivery, List.cons_append, List.nil_append, List.mem_cons, List.not_mem_nil, or_false] at ha
+      rcases ha with rfl | rfl | rfl | rfl | rfl | rfl | rfl | rfl | rfl | rfl | rfl | rfl | rfl | rfl | rfl <;>
+        simp [Act.isNet, Act.thread?, Ne.symm h0, Ne.symm h1])
+    rw [this]; rfl
+  have hq := unsubscribe_takes_effect (k := exKey) (r := 7) (rest := [.ret (.unsub exKey 7)]) hreach (Or.inl hp0)
+    (by
+      intro th' _
+      by_cases e0 : th' = .user 0 0
+      · rw [e0, hp0]; decide
+      · by_cases e1 : th' = .user 0 1
+        · rw [e1, hp1]; decide
+        · rw [hother th' e0 e1]; decide)
+    (by
+      have : (run State.init exBeforeUnsub).map (fun s => (s.ctx 0).byKey exKey) = some none := by decide
+      rw [hs] at this
+      simp only [Option.map_some, Option.some.injEq] at this
+      intro pid po h1; simp only [Th.ctx] at h1; rw [this] at h1; simp at h1)
+    hs'
+  refine ⟨s, s', o, hreach, hs', hq, ?_, ?_⟩
+  · have : (run State.init exBeforeUnsub).map (fun s => ((s.ctx 0).got 7).length) = some 1 := by decide
+    rw [hs] at this; simpa using this
+  · have : ((run State.init exBeforeUnsub).bind fun s => (step s (.micro (.user 0 0) 0 0)).map fun x => (x.1.ctx 0).lsubs exKey) = some [] := by decide
+    rw [hs] at this
+    simp only [Option.bind_some, hs', Option.map_some, Option.some.injEq] at this
+    exact this
+
+
+/-! ## Order per publishing thread
+
+Every snapshot records the thread that took it (`Snap.taker`): the publishing thread itself for receivers in the
+publisher's own context, the socket thread of the receiving context for publications that arrive over the network. -/
+
+/-- every thread works through its snapshots strictly one after the other: in every queue, items that stem from
+snapshots taken by the same thread appear in the order in which those snapshots were taken -/
+theorem deliveries_in_snapshot_order {s : State} (h : Reach s) (c : Ctx) (r : Rcv) :
+    ((s.ctx c).got r).Pairwise (fun a b => takerOf s a.sid = takerOf s b.sid → a.sid < b.sid) :=
+  (ordInv_reach h).got c r
+
+/-- a publishing thread takes the snapshots of its own publications, each publication once and in publication order -/
+theorem own_snapshots_in_publication_order {s : State} (h : Reach s) {i j : Nat} {si sj : Snap} {c : Ctx} {t : Tid}
+    (hij : i < j) (hi : s.snaps[i]? = some si) (hj : s.snaps[j]? = some sj)
+    (hti : si.taker = .user c t) (htj : sj.taker = .user c t) :
+    si.p.c = c ∧ si.p.tid = t ∧ sj.p.c = c ∧ sj.p.tid = t ∧ si.p.seq < sj.p.seq := by
+  have inv := seqInv_reach h
+  obtain ⟨a1, a2, -⟩ := inv.own i si c t hi hti
+  obtain ⟨b1, b2, -⟩ := inv.own j sj c t hj htj
+  exact ⟨a1, a2, b1, b2, inv.sorted i j si sj c t hij hi hj hti htj⟩
+
+/-- **order, local layer (full)**: what a publishing thread delivers itself — i.e. everything a receiver in the
+publisher's own context gets from that thread — is queued in publication order, each publication at most once -/
+theorem per_publisher_thread_order_local {s : State} (h : Reach s) (c : Ctx) (r : Rcv) :
+    ((s.ctx c).got r).Pairwise (fun a b => ∀ t, takerOf s a.sid = some (.user c t) → takerOf s b.sid = some (.user c t) →
+        a.p.c = c ∧ a.p.tid = t ∧ b.p.c = c ∧ b.p.tid = t ∧ a.p.seq < b.p.seq) := by
+  have hd := dlvInv_reach h
+  refine (deliveries_in_snapshot_order h c r).imp_of_mem ?_
+  intro a b ha hb hab t hta htb
+  have hlt := hab (by rw [hta, htb])
+  obtain ⟨_, tka, ha1, -⟩ := hd.got_snap c r a ha
+  obtain ⟨_, tkb, hb1, -⟩ := hd.got_snap c r b hb
+  simp only [takerOf, ha1, hb1, Option.map_some, Option.some.injEq] at hta htb
+  simpa using own_snapshots_in_publication_order h hlt ha1 hb1 hta htb
+
+/-- what remains to be shown about the network (event-loop queue → connection → socket thread are FIFO, and a context
+never receives its own publications back): the snapshots a socket thread takes for one publishing thread are in
+publication order.  The loop queue and the connection inboxes of the model are lists appended at the tail and consumed
+at the head; the composition over connect / disconnect is not mechanised (it is checked on the implementation by the
+C07 harness: clause `out-of-order`). -/
+structure NetworkFifo (s : State) : Prop where
+  foreign : ∀ (j : Nat) sn c, s.snaps[j]? = some sn → sn.taker = .sock c → sn.p.c ≠ c
+  sorted : ∀ (i j : Nat) si sj c, i < j → s.snaps[i]? = some si → s.snaps[j]? = some sj →
+      si.taker = .sock c → sj.taker = .sock c → si.p.c = sj.p.c → si.p.tid = sj.p.tid → si.p.seq < sj.p.seq
+
+/-- **order, all receivers (partial: assumes `NetworkFifo`)**: in every queue the publications of one publishing thread
+appear in publication order, each at most once (strict order) -/
+theorem per_publisher_thread_order_partial {s : State} (h : Reach s) (hnet : NetworkFifo s) (c : Ctx) (r : Rcv) :
+    ((s.ctx c).got r).Pairwise (fun a b => a.p.c = b.p.c → a.p.tid = b.p.tid → a.p.seq < b.p.seq) := by
+  have hd := dlvInv_reach h
+  have ho := ordInv_reach h
+  have hq := seqInv_reach h
+  refine (deliveries_in_snapshot_order h c r).imp_of_mem ?_
+  intro a b ha hb hab hc ht
+  obtain ⟨rsa, tka, ha1, -⟩ := hd.got_snap c r a ha
+  obtain ⟨rsb, tkb, hb1, -⟩ := hd.got_snap c r b hb
+  have hca := ho.taker_ctx _ _ ha1
+  have hcb := ho.taker_ctx _ _ hb1
+  simp only [takerOf, ha1, hb1, Option.map_some, Option.some.injEq] at hab
+  simp only at hca hcb
+  cases tka with
+  | user ca ta =>
+    simp only [Th.ctx] at hca; subst hca
+    obtain ⟨a1, a2, -⟩ := hq.own _ _ _ _ ha1 rfl
+    cases tkb with
+    | user cb tb =>
+      simp only [Th.ctx] at hcb; subst hcb
+      obtain ⟨b1, b2, -⟩ := hq.own _ _ _ _ hb1 rfl
+      simp only at a1 a2 b1 b2
+      have : ta = tb := by rw [← a2, ← b2]; exact ht
+      subst this
+      exact hq.sorted _ _ _ _ _ _ (hab rfl) ha1 hb1 rfl rfl
+    | sock cb =>
+      simp only [Th.ctx] at hcb; subst hcb
+      have := hnet.foreign _ _ _ hb1 rfl
+      simp only at a1 this
+      exact absurd (hc ▸ a1) this
+  | sock ca =>
+    simp only [Th.ctx] at hca; subst hca
+    cases tkb with
+    | user cb tb =>
+      simp only [Th.ctx] at hcb; subst hcb
+      obtain ⟨b1, -, -⟩ := hq.own _ _ _ _ hb1 rfl
+      have := hnet.foreign _ _ _ ha1 rfl
+      simp only at b1 this
+      exact absurd (hc.symm ▸ b1) this
+    | sock cb =>
+      simp only [Th.ctx] at hcb; subst hcb
+      exact hnet.sorted _ _ _ _ _ (hab rfl) ha1 hb1 rfl rfl hc ht
+
+/-- non-vacuity: the hypotheses of the partial theorem hold in a reachable state with a delivery -/
+example : ((run State.init exLocalDelivery).map fun s =>
+    (s.snaps.map (fun sn => (sn.taker, sn.p.c, sn.p.tid, sn.p.seq)))) = some [(.user 0 1, 0, 1, 0)] := by decide
 
 end QmiModel.PubSub
